@@ -262,6 +262,16 @@ def gen_C18(tier, seed, unit, nunits):
             x = G.rand_val(rng, s, n, f, E)
             steps = [wstep(rng, s, n, f, E, x if i == 0 else None) for i in range(rng.randint(2, 12))]
             out.append(f'wprog {s} {n} {f} {x} ' + ' '.join(steps))
+    # accessor functions of Wrapping<F> that return plain numbers, and its Display impl
+    for (s, n, f) in unit_layouts(G.typed_layouts(tier), unit, nunits):
+        rng = random.Random(f'{seed}/C18q/{s}/{n}/{f}')
+        E = G.edges(s, n, f)
+        for fn in ('min_value', 'max_value', 'int_nbits', 'frac_nbits'):
+            out.append(f'wq_{fn} {s} {n} {f}')
+        vals = E + [G.rand_val(rng, s, n, f, E) for _ in range(scale(tier, 20, 400))]
+        for x in vals:
+            for fn in ('count_ones', 'count_zeros', 'leading_zeros', 'trailing_zeros', 'display') + (() if s else ('is_power_of_two',)):
+                out.append(f'wq_{fn} {s} {n} {f} {x}')
     conv, text = wrapping_entry_points(tier, seed, unit, nunits)
     return {'wrap': out, 'conv': conv, 'text': text}
 
@@ -467,6 +477,8 @@ def gen_C05(tier, seed, unit, nunits):
                 out.append(req('fcv_to', s, n, f, x, fmt))
             for x in list(sorted(vals))[:5]:
                 out.append(req('fcv_to_checked', s, n, f, x, fmt)); out.append(req('fcv_to_overflowing', s, n, f, x, fmt))
+            for x in list(sorted(vals))[::7]:
+                out.append(req('fcv_to_saturating', s, n, f, x, fmt)); out.append(req('fcv_to_wrapping', s, n, f, x, fmt))
     return {'conv': out}
 
 def treq(op, S, x, D=None, *extra):
